@@ -851,21 +851,12 @@ func c05Gen(tier string, rng *rand.Rand, emit func(string)) map[string]interface
 	}
 	tripleLists := c05Lists(4, 2, true) // quick: 22^3 triples
 	if thorough {
-		tripleLists = c05Lists(3, 3, true) // thorough: 41^3 triples (3 letters, length <= 3) in addition
+		tripleLists = full // thorough: all 86^3 triples
 	}
 	for _, a := range tripleLists {
 		for _, b := range tripleLists {
 			for _, c := range tripleLists {
 				out("L3", "L "+a+" "+b+" "+c+": "+c05Ops3)
-			}
-		}
-	}
-	if thorough {
-		for _, a := range c05Lists(4, 2, true) {
-			for _, b := range c05Lists(4, 2, true) {
-				for _, c := range c05Lists(4, 2, true) {
-					out("L3", "L "+a+" "+b+" "+c+": "+c05Ops3)
-				}
 			}
 		}
 	}
@@ -982,7 +973,7 @@ func c05Gen(tier string, rng *rand.Rand, emit func(string)) map[string]interface
 	return map[string]interface{}{
 		"exhaustive": false,
 		"scope": "L: arity 0; all 86 operands (nil + lists of length <= 3 over 4 letters) for arity 1 and all 86^2 pairs; " +
-			"triples: 22^3 (length <= 2 over 4 letters) + 86x6x6, thorough also 41^3 (length <= 3 over 3 letters); random arity 1..5, length <= 8, alphabet <= 7. " +
+			"triples: quick 22^3 (length <= 2 over 4 letters) + 86x6x6, thorough all 86^3; random arity 1..5, length <= 8, alphabet <= 7. " +
 			"M: all maps over 3 keys + nil + nil map, pairs and triples; random 6-key maps. " +
 			"S: all key->stream maps with <= 2 of 3 keys, streams of length <= 2 over 2 letters (incl. empty) + nil, all pairs; random 4-key maps, streams length <= 5 over 4 letters",
 		"cases_by_kind": counts,
